@@ -37,6 +37,9 @@ macro_rules! config {
         }
         fn with_capacity(n: usize) -> Option<V<Self>> { Some(any_vec::AnyVec::with_capacity_in::<$e>(n, Self::mem_builder())) }
     };
+    (@cap rawparts, $e:ty) => {
+        fn raw_ops(w: &mut World<Self>, a: &Value, out: &mut ActOut) -> bool { raw_ops_impl::<Self>(w, a, out) }
+    };
     (@cap cloneable, $e:ty) => {
         const CLONEABLE: bool = true;
         fn clone_vec(v: &V<Self>) -> Option<V<Self>> { Some(v.clone()) }
@@ -50,40 +53,42 @@ use any_vec::traits::{Cloneable, None as TNone, Send, Sync};
 use any_vec::mem::Heap;
 
 #[cfg(feature = "alloc")]
-config!(CHeap8d, "heap8d", dyn TNone, Heap, Heap, E8a8d, false, 0, "heap", resizable);
+config!(CHeap8d, "heap8d", dyn TNone, Heap, Heap, E8a8d, false, 0, "heap", resizable, rawparts);
 #[cfg(feature = "alloc")]
-config!(CHeap8c, "heap8c", dyn Cloneable, Heap, Heap, E8a8d, false, 0, "heap", resizable, cloneable);
+config!(CHeap8c, "heap8c", dyn Cloneable, Heap, Heap, E8a8d, false, 0, "heap", resizable, rawparts, cloneable);
 #[cfg(feature = "alloc")]
-config!(CHeap3c, "heap3c", dyn Cloneable, Heap, Heap, E3a1n, false, 0, "heap", resizable, cloneable);
+config!(CHeap3c, "heap3c", dyn Cloneable, Heap, Heap, E3a1n, false, 0, "heap", resizable, rawparts, cloneable);
 #[cfg(feature = "alloc")]
-config!(CHeap0c, "heap0c", dyn Cloneable, Heap, Heap, E0a1d, false, 0, "heap", resizable, cloneable);
+config!(CHeap0c, "heap0c", dyn Cloneable, Heap, Heap, E0a1d, false, 0, "heap", resizable, rawparts, cloneable);
 #[cfg(feature = "alloc")]
-config!(CHeap8css, "heap8css", dyn Cloneable + Send + Sync, Heap, Heap, E8a8d, false, 0, "heap", resizable, cloneable);
+config!(CHeap8css, "heap8css", dyn Cloneable + Send + Sync, Heap, Heap, E8a8d, false, 0, "heap", resizable, rawparts, cloneable);
+config!(CEmpty8d, "empty8d", dyn TNone, any_vec::mem::Empty, any_vec::mem::Empty, E8a8d, true, 0, "empty", rawparts);
+config!(CEmpty0c, "empty0c", dyn Cloneable, any_vec::mem::Empty, any_vec::mem::Empty, E0a1d, true, 0, "empty", rawparts, cloneable);
 config!(CStack8c, "stack8c", dyn Cloneable, Stack<24>, Stack::<24>, E8a8d, true, 3, "stack", cloneable);
 #[cfg(feature = "alloc")]
-config!(CHeap3n, "heap3n", dyn TNone, Heap, Heap, E3a1n, false, 0, "heap", resizable);
+config!(CHeap3n, "heap3n", dyn TNone, Heap, Heap, E3a1n, false, 0, "heap", resizable, rawparts);
 #[cfg(feature = "alloc")]
-config!(CHeap160, "heap160", dyn Cloneable, Heap, Heap, E160a8d, false, 0, "heap", resizable, cloneable);
+config!(CHeap160, "heap160", dyn Cloneable, Heap, Heap, E160a8d, false, 0, "heap", resizable, rawparts, cloneable);
 #[cfg(feature = "alloc")]
-config!(CHeap0d, "heap0d", dyn TNone, Heap, Heap, E0a1d, false, 0, "heap", resizable);
+config!(CHeap0d, "heap0d", dyn TNone, Heap, Heap, E0a1d, false, 0, "heap", resizable, rawparts);
 #[cfg(feature = "alloc")]
-config!(CHeap1n, "heap1n", dyn TNone, Heap, Heap, E1a1n, false, 0, "heap", resizable);
+config!(CHeap1n, "heap1n", dyn TNone, Heap, Heap, E1a1n, false, 0, "heap", resizable, rawparts);
 #[cfg(feature = "alloc")]
-config!(CHeap2d, "heap2d", dyn TNone, Heap, Heap, E2a2d, false, 0, "heap", resizable);
+config!(CHeap2d, "heap2d", dyn TNone, Heap, Heap, E2a2d, false, 0, "heap", resizable, rawparts);
 #[cfg(feature = "alloc")]
-config!(CHeap12d, "heap12d", dyn TNone, Heap, Heap, E12a4d, false, 0, "heap", resizable);
+config!(CHeap12d, "heap12d", dyn TNone, Heap, Heap, E12a4d, false, 0, "heap", resizable, rawparts);
 #[cfg(feature = "alloc")]
-config!(CHeap16d, "heap16d", dyn TNone, Heap, Heap, E16a16d, false, 0, "heap", resizable);
+config!(CHeap16d, "heap16d", dyn TNone, Heap, Heap, E16a16d, false, 0, "heap", resizable, rawparts);
 #[cfg(feature = "alloc")]
-config!(CHeap24d, "heap24d", dyn TNone, Heap, Heap, E24a8d, false, 0, "heap", resizable);
+config!(CHeap24d, "heap24d", dyn TNone, Heap, Heap, E24a8d, false, 0, "heap", resizable, rawparts);
 #[cfg(feature = "alloc")]
-config!(CHeap32d, "heap32d", dyn TNone, Heap, Heap, E32a32d, false, 0, "heap", resizable);
+config!(CHeap32d, "heap32d", dyn TNone, Heap, Heap, E32a32d, false, 0, "heap", resizable, rawparts);
 #[cfg(feature = "alloc")]
-config!(CHeap64n, "heap64n", dyn TNone, Heap, Heap, E64a64n, false, 0, "heap", resizable);
+config!(CHeap64n, "heap64n", dyn TNone, Heap, Heap, E64a64n, false, 0, "heap", resizable, rawparts);
 #[cfg(feature = "alloc")]
-config!(CHeap160a32, "heap160a32", dyn TNone, Heap, Heap, E160a32d, false, 0, "heap", resizable);
+config!(CHeap160a32, "heap160a32", dyn TNone, Heap, Heap, E160a32d, false, 0, "heap", resizable, rawparts);
 #[cfg(feature = "alloc")]
-config!(CHeap0n, "heap0n", dyn TNone, Heap, Heap, E0a1n, false, 0, "heap", resizable);
+config!(CHeap0n, "heap0n", dyn TNone, Heap, Heap, E0a1n, false, 0, "heap", resizable, rawparts);
 config!(CFence8d, "fence8d", dyn TNone, fence::FenceMemBuilder, fence::FenceMemBuilder, E8a8d, false, 0, "fence", resizable);
 config!(CFence3n, "fence3n", dyn TNone, fence::FenceMemBuilder, fence::FenceMemBuilder, E3a1n, false, 0, "fence", resizable);
 config!(CFence24d, "fence24d", dyn Cloneable, fence::FenceMemBuilder, fence::FenceMemBuilder, E24a8d, false, 0, "fence", resizable, cloneable);
@@ -346,7 +351,7 @@ fn main() {
         };
     }
     #[cfg(feature = "alloc")]
-    dispatch!(CHeap8d, CHeap8c, CHeap3c, CHeap0c, CHeap8css, CStack8c, CHeap3n, CHeap160, CHeap0d, CHeap1n, CHeap2d, CHeap12d, CHeap16d, CHeap24d, CHeap32d, CHeap64n, CHeap160a32, CHeap0n, CFence8d, CFence3n, CFence24d, CFence160, CFence0d, CStack24x3, CStackN3, CStack8x3m, CStack8x3p, CStack8x2p, CStackN2);
+    dispatch!(CEmpty8d, CEmpty0c, CHeap8d, CHeap8c, CHeap3c, CHeap0c, CHeap8css, CStack8c, CHeap3n, CHeap160, CHeap0d, CHeap1n, CHeap2d, CHeap12d, CHeap16d, CHeap24d, CHeap32d, CHeap64n, CHeap160a32, CHeap0n, CFence8d, CFence3n, CFence24d, CFence160, CFence0d, CStack24x3, CStackN3, CStack8x3m, CStack8x3p, CStack8x2p, CStackN2);
     #[cfg(not(feature = "alloc"))]
-    dispatch!(CStack8c, CFence8d, CFence3n, CFence24d, CFence160, CFence0d, CStack24x3, CStackN3, CStack8x3m, CStack8x3p, CStack8x2p, CStackN2);
+    dispatch!(CEmpty8d, CEmpty0c, CStack8c, CFence8d, CFence3n, CFence24d, CFence160, CFence0d, CStack24x3, CStackN3, CStack8x3m, CStack8x3p, CStack8x2p, CStackN2);
 }
